@@ -9,7 +9,7 @@ from bind.sandbox import PROP_KEYS
 CFGS = {("C04", "quick"): ["MC_Sandbox_modes_q.cfg", "MC_Sandbox_modes2_q.cfg"], ("C05", "quick"): ["MC_Sandbox_modes_q.cfg", "MC_Sandbox_tracer_q.cfg", "MC_Sandbox_blocked_q.cfg"],
         ("C15", "quick"): ["MC_Sandbox_ledger_q.cfg", "MC_Sandbox_inputs_q.cfg"],
         ("C04", "thorough"): ["MC_Sandbox_modes_q.cfg", "MC_Sandbox_modes2_q.cfg", "MC_Sandbox_modes_t.cfg"],
-        ("C05", "thorough"): ["MC_Sandbox_modes_q.cfg", "MC_Sandbox_tracer_q.cfg", "MC_Sandbox_blocked_q.cfg", "MC_Sandbox_modes_t.cfg"],
+        ("C05", "thorough"): ["MC_Sandbox_modes_q.cfg", "MC_Sandbox_modes2_q.cfg", "MC_Sandbox_tracer_q.cfg", "MC_Sandbox_blocked_q.cfg", "MC_Sandbox_modes_t.cfg"],
         ("C15", "thorough"): ["MC_Sandbox_ledger_q.cfg", "MC_Sandbox_inputs_q.cfg", "MC_Sandbox_ledger_t.cfg"]}
 MUTANTS = {"C04": [("MUT_Sandbox_fragile_capture.cfg", "Contained")],
            "C05": [("MUT_Sandbox_no_base_handler.cfg", "Restored"), ("MUT_Sandbox_tracer_conditional_restore.cfg", "Restored"),
